@@ -964,7 +964,9 @@ def run(out, ctx):
                 "Tensor.expand; an output that comes back with an unexpanded batch shape u is read at bproj u b (expand "
                 "semantics; counted as unexpanded-output); every observable of a kernel / likelihood is evaluated separately so an "
                 "exception is attributed to the public call that raised; families: %d kernels (K, K(x,x2), diag, lazy diag, and "
-                "diag / lazy diag on n=3 points = a batch size), 2 means, 3 likelihoods, exact GP (data batch on train+test / train "
+                "diag / lazy diag on n=3 points = a batch size), 2 means, 3 likelihoods; for the generic / Scale / Additive / Product / nested kernels also element b as handed out by the library's OWN batch "
+                "indexing of the lazy kernel tensor: K[i] (a partial index for batch rank 2), K[:, j], K[i:i+1], Kx[i], reassembled and compared with the replica; exact GP (the "
+                "prior and posterior also through MultivariateNormal.__getitem__: prior[i], prior[:, j], post[i]; data batch on train+test / train "
                 "only / test only: MLL, prior, posterior, predictive), whitened + unwhitened variational (predictive, KL, ELBO), "
                 "exact GP with hyperparameter priors on ONE kind of module per family (kernel, ConstantMean, LinearMean weights+bias, "
                 "noise model, closure prior on the likelihood, closure priors on the model object (with / without event dims), all "
@@ -975,7 +977,9 @@ def run(out, ctx):
                 "heteroskedastic (noise GP) likelihoods, EVERY public call form (call with tuples / bare tensors, forward, forward_i, "
                 "likelihood_i, marginal / expected_log_prob / forward of the likelihood list with and without per-model params and "
                 "with the noise= kwarg, SumMLL of exact and LOO members with and without per-model params, posterior, predictive, "
-                "fantasy models with and without noise=) against the members' own outputs (their mean for the sum MLL); failure keys "
+                "fantasy models with and without noise=; KEYWORD ARGUMENTS consumed by the members: forward(x, scale=, shift=) through __call__ / forward / forward_i in train "
+                "and eval mode and through get_fantasy_model, a likelihood keyword (inflate=) through LikelihoodList __call__ / forward / expected_log_prob / likelihood_i, "
+                "each also against the dense definition so that the keyword is known to be consumed) against the members' own outputs (their mean for the sum MLL); failure keys "
                 "carry the input-class bits computed by the Coq model (Models/C08_diag.v: expands_to, takes_diagonal; "
                 "Models/C08_prior.v: param_rank_short); non-trivial = broadcast batch has > 1 element" % len(KERNELS))
     out.exhaustive = True
